@@ -2029,6 +2029,7 @@ extern int32_t tls13AddSessionPsk(ssl_t *ssl,
 extern int32_t tls13FillInPskBinders(ssl_t *ssl,
         unsigned char *bindersStart);
 extern int32_t tls13GetPskHmacAlg(psTls13Psk_t *psk);
+extern psBool_t tls13ClientOffersPsk(ssl_t *ssl, psTls13Psk_t *psk);
 extern psSize_t tls13GetPskHashLen(psTls13Psk_t *psk);
 extern void tls13FreePsk(psTls13Psk_t *psk,
         psPool_t *pool);
